@@ -2,6 +2,7 @@
 Taylor/squaring matrix exponential (ExpmF.v) against the implementation (SciPy backend)."""
 from fractions import Fraction as Fr
 
+import json
 import common as C
 import demog
 import gen
@@ -102,7 +103,7 @@ def flatten(v):
 def run_items(res, pid, name, items, what='statistic differs from the model value', impl_extra=None):
     """Evaluates every item on the implementation and in the Gallina model and compares.
     Returns list of (item, impl_result, model_values) for further oracles."""
-    payloads = [{'cases': [{'spec': it['spec'], 'prelude': it.get('prelude', []),
+    payloads = [{'cases': [{'spec': it['spec'], 'prelude': it.get('prelude', []), 'want_k_bc': not it.get('lc', True),
                             'ops': [o['py'] for o in it['ops']] + (impl_extra or [])}]} for it in items]
     outs = C.run_impl_parallel('numeric.py', payloads, timeout=1800)
     bodies, keep = [], []
@@ -117,12 +118,41 @@ def run_items(res, pid, name, items, what='statistic differs from the model valu
         # cost control: the binary64 model multiplies ((k+1) * states)-dimensional matrices inside Coq;
         # operations whose Van Loan matrix would exceed the budget are evaluated on the implementation
         # only (their oracles still run), never silently compared with a wrong value
-        budget = it.get('budget', 72)
-        if lc:
-            for o_ in it['ops']:
-                kmax = max([q.get('k', 0) for q in o_['queries']] + [0])
-                o_['skip_model'] = (kmax + 1) * r['k_lc'] > budget
+        budget = it.get('budget', 72 if lc else 96)
+        kk = r['k_lc'] if lc else (r.get('k_bc') or r['k_lc'])
         for o_ in it['ops']:
+            kmax = max([q.get('k', 0) for q in o_['queries']] + [0])
+            o_['skip_model'] = (kmax + 1) * kk > budget
+        # total cost of one item (evaluated on ONE core): sum over its DISTINCT queries of dim^3 * (epochs + times); the most
+        # expensive operations are left to the implementation-side oracles until the estimate fits (about 8e-6 s per unit)
+        sp_ = it['spec']
+        E_ = len({t for d in (sp_.get('pop_sizes') or {}).values() for t in (d if isinstance(d, dict) else {})} |
+                 {t for d in (sp_.get('migration_rates') or {}).values() for t in (d if isinstance(d, dict) else {})}) + len(sp_.get('events') or [])
+        cap = it.get('cost_cap', 6e6 if res.tier == 'quick' else 6e7)
+
+        def qcost(q):
+            return ((q.get('k', 0) + 1) * kk) ** 3 * (E_ + 1 + len(q.get('ts') or []))
+
+        def total():
+            seen = set()
+            tot = 0
+            for o_ in it['ops']:
+                if o_.get('skip_model'):
+                    continue
+                for q in o_['queries']:
+                    key_ = json.dumps(q, sort_keys=True, default=str)
+                    if key_ not in seen:
+                        seen.add(key_)
+                        tot += qcost(q)
+            return tot
+        while total() > cap:
+            cands = [o_ for o_ in it['ops'] if not o_.get('skip_model') and max([q.get('k', 0) for q in o_['queries']] + [0]) > 1]
+            if not cands:
+                break
+            max(cands, key=lambda o_: sum(qcost(q) for q in o_['queries']))['skip_model'] = True
+        uniq = {}      # identical model queries of one item are evaluated once inside Coq and shared between its operations
+        for o_ in it['ops']:
+            o_['_idx'] = []
             if o_.get('skip_model'):
                 continue
             for q in o_['queries']:
@@ -131,7 +161,11 @@ def run_items(res, pid, name, items, what='statistic differs from the model valu
                     q.setdefault('end', end_default)
                     if it['spec'].get('start_time') and 'start' not in q:
                         q['start'] = it['spec']['start_time']
-                qs.append(q)
+                key_ = json.dumps(q, sort_keys=True, default=str)
+                if key_ not in uniq:
+                    uniq[key_] = len(qs)
+                    qs.append(q)
+                o_['_idx'].append(uniq[key_])
         txt, _ = case_text(i, it['spec'], r, qs if lc else [], [] if lc else qs)
         bodies.append(txt)
         keep.append((it, r, qs))
@@ -156,9 +190,7 @@ def run_items(res, pid, name, items, what='statistic differs from the model valu
                 if err:
                     res.violation('statistic raised on a valid configuration', {'spec': it['spec'], 'op': o_['py'], 'error': err})
                 continue
-            nq = len(o_['queries'])
-            mq = mv[pos:pos + nq]
-            pos += nq
+            mq = [mv[i_] for i_ in o_['_idx']]
             key = (gen.spec_key(it['spec']), j)
             if err:
                 res.violation('statistic raised on a valid configuration', {'spec': it['spec'], 'op': o_['py'], 'error': err})
